@@ -75,7 +75,7 @@ def roundtrip(ctx, rep):
             ints = [i for i, r in enumerate(genome) if r[0] == G.INTEGER]
             if ints:
                 i = rng.choice(ints)
-                big = rng.choice([2 ** 31 - 1, 2 ** 31, 2 ** 32 + 5, 2 ** 35 + 1, -(2 ** 31) - 1, -(2 ** 33), 2 ** 40, 2 ** 53 + 1, 2 ** 61 + 3, 10 ** 10, 10 ** 15])
+                big = rng.choice([2 ** 31 - 1, 2 ** 31, 2 ** 32 + 5, 2 ** 35 + 1, -(2 ** 31) - 1, -(2 ** 33), 2 ** 40, 2 ** 53 + 1, 2 ** 59 + 3, 10 ** 10, 10 ** 15])
                 genome = [list(r) for r in genome]
                 genome[i] = [G.INTEGER, big, big]
                 rep.count("roundtrip", "integer literal beyond 32 bits")
@@ -292,7 +292,7 @@ def sharing_strings(ctx, rep):
 def run(ctx, rep):
     rep.rule = ("(K) c16_diff: printing of generated / hand stacks with all 16 node types in four formats incl. special constants; parsing of bingo's own "
                 "sympy/console output, of str(sympy expression) over the supported functions, of malformed strings; (oracle) round trip through the "
-                "string constructor with and without simplification (constants of every magnitude, integer literals up to 2^61, print / new constants / print again), sympy strings vs sympy's own values; distinct = distinct strings")
+                "string constructor with and without simplification (constants of every magnitude, integer literals up to 2^59, print / new constants / print again), sympy strings vs sympy's own values; distinct = distinct strings")
     rep.assumptions = ["float(repr(c)) == c (shortest round-trip repr of binary64)", "the parser model is exact for ASCII input (non-ASCII input is outside the model)"]
     out = tempfile.mktemp(suffix=".json")
     env = dict(os.environ)
